@@ -442,6 +442,19 @@ fn snap(ms: u64, cands: &[u64]) -> u64 {
 /// configured secrets: the text the operator wrote is the key, byte for byte (a mounted secret file ends in a newline)
 const SECRETS: &[&str] = &["configured secret", "s3cret-from-a-file\n", "  padded  ", "\ttab-led"];
 
+const ENV_SECRETS: &[&str] = &["plain-secret", "007700", "TRUE", "31415926535897932384626", "1e3"];
+/// `PASSAGE_AUTHSECRET=<text>` read by the application's `Config::read()`, once per text, before any worker thread exists
+fn env_secret_cfgs() -> &'static Vec<Result<passage::config::Config, String>> {
+    static CFGS: std::sync::OnceLock<Vec<Result<passage::config::Config, String>>> = std::sync::OnceLock::new();
+    CFGS.get_or_init(|| ENV_SECRETS.iter().map(|sec| {
+        // SAFETY: called first from `run_c14` before any worker thread exists
+        unsafe { std::env::set_var("PASSAGE_AUTHSECRET", sec); }
+        let c = passage::config::Config::read().map_err(|e| e.to_string());
+        unsafe { std::env::remove_var("PASSAGE_AUTHSECRET"); }
+        c
+    }).collect())
+}
+
 fn c14_case(req: &str) -> Case {
     let op = req.split_whitespace().next().unwrap().to_string();
     let configured = SECRETS[kvs(req, "sec").and_then(|s| s.parse::<usize>().ok()).unwrap_or(0) % SECRETS.len()];
@@ -463,7 +476,16 @@ fn c14_case(req: &str) -> Case {
                 let (cfgexp, age, same) = (kvn(req, "cfgexp"), kvn(req, "age"), kvn(req, "same"));
                 // `nosecret=1`: the operator configured no secret at all (cookies are switched off); the client signs with the empty key
                 let nosecret = kvs(req, "nosecret").as_deref() == Some("1");
-                let p = start_app(app_config(free_port(), 10_000, cfgexp, if nosecret { None } else { Some(configured) }, 2, false));
+                let envsec = kvs(req, "envsec").and_then(|s| s.parse::<usize>().ok());
+                let configured = match envsec { Some(k) => ENV_SECRETS[k % ENV_SECRETS.len()], None => configured };
+                let p = match envsec {
+                    None => start_app(app_config(free_port(), 10_000, cfgexp, if nosecret { None } else { Some(configured) }, 2, false)),
+                    Some(k) => match &env_secret_cfgs()[k % ENV_SECRETS.len()] {
+                        Ok(cfg) => { let mut cfg = cfg.clone(); cfg.address = format!("127.0.0.1:{}", free_port()); cfg.timeout = 2; cfg.auth_cookie_expiry = cfgexp;
+                            cfg.adapters.authentication = passage::config::AuthenticationAdapter::Fixed(passage::config::FixedAuthentication::default()); start_app(cfg) }
+                        Err(e) => return Case { request: req.into(), observed: "unreadable".into(), oracle: Some(format!("the secret {configured:?} in the environment made the configuration unreadable: {e}")), class: "cookie:env-secret".into() },
+                    },
+                };
                 let key: &[u8] = if nosecret { b"" } else if same == 1 { configured.as_bytes() } else { b"another secret" };
                 let cookie = sign(key, &cookie_json(now_secs() - age, "127.0.0.1:7", "Tester", 0x0987_9557_e479_45a9_b434_a563_7767_4627, Some("srv-0"), serde_json::json!([])));
                 let mut c = Cli::connect(p, None).await.expect("connect");
@@ -495,7 +517,7 @@ fn c14_case(req: &str) -> Case {
                 let header = optn(&kvs(req, "header").unwrap());
                 let proto = optn(&kvs(req, "proto").unwrap());
                 let style = kvs(req, "style").unwrap_or_else(|| "silent".into());
-                let gated = style == "config" || style == "keepalive";
+                let gated = style == "config" || style == "keepalive" || style == "flood";
                 let srv;
                 let port = if gated {
                     srv = Srv::start(&SrvOpts { proxy: if proxy { Some((true, true)) } else { None }, timeout: Duration::from_millis(timeout), gated: true, ..Default::default() });
@@ -547,6 +569,15 @@ fn c14_case(req: &str) -> Case {
                                 }
                                 "login" => { c.login(2, None, Stage::LoginStart, Duration::from_millis(300)).await; }
                                 "config" => { c.login(2, None, Stage::Configuration, Duration::from_millis(1500)).await; }
+                                "flood" => {
+                                    // logged in, then ignorable frames back to back across the deadline: the handler never has to wait for input
+                                    c.login(2, None, Stage::Configuration, Duration::from_millis(1500)).await;
+                                    let one = frame(&crate::conn::build::plugin_message());
+                                    let batch: Vec<u8> = one.iter().copied().cycle().take(one.len() * 512).collect();
+                                    let mut res = None;
+                                    while c.t0.elapsed() < horizon { if !c.raw(&batch).await { res = Some(c.t0.elapsed()); break; } }
+                                    return finish_deadline(req, timeout, proxy, header, proto, &style, res);
+                                }
                                 "keepalive" => {
                                     // answers every keep-alive for ever; routing never completes (backend gate stays shut)
                                     let st = tokio::time::timeout(horizon, c.login(2, None, Stage::Transferred, long)).await;
@@ -608,7 +639,7 @@ pub fn run_c14(a: &Args) {
                 } else {
                     match rng.below(5) {
                         0 => "c14.deadline timeout=1000 proxy=0 header=none proto=200 style=silent".to_string(),
-                        _ => format!("c14.deadline timeout={} proxy=0 header=none proto=none style={}", rng.pick(&[1000, 2000]), rng.pick(&["silent", "drip", "login", "config"])),
+                        _ => format!("c14.deadline timeout={} proxy=0 header=none proto=none style={}", rng.pick(&[1000, 2000]), rng.pick(&["silent", "drip", "login", "config", "flood"])),
                     }
                 }
             }
@@ -617,7 +648,12 @@ pub fn run_c14(a: &Args) {
     // fixed probes on every run: no secret configured; the server's own cookie before and after its expiry; idle after a completed exchange
     reqs.push("c14.cookie cfgexp=21600 age=0 same=1 nosecret=1".into());
     reqs.push("c14.issued cfgexp=2 wait=4".into());
+    reqs.push("c14.issued cfgexp=4 wait=6".into());
     reqs.push("c14.issued cfgexp=600 wait=1".into());
+    reqs.push("c14.deadline timeout=2000 proxy=0 header=none proto=none style=flood".into());
+    // the secret as an operator hands it over in the environment: number- or boolean-looking texts are keys like any other
+    let _ = env_secret_cfgs();
+    for k in 0..ENV_SECRETS.len() { reqs.push(format!("c14.cookie cfgexp=21600 age=0 same=1 envsec={k}")); }
     reqs.push("c14.issued cfgexp=600 wait=0 sec=1".into());
     reqs.push("c14.issued cfgexp=600 wait=0 sec=2".into());
     reqs.push("c14.deadline timeout=2000 proxy=0 header=none proto=0 style=idle-after-pong".into());
@@ -678,17 +714,18 @@ fn classify(bytes: &[u8], cfg: ParseConfig) -> HClass {
 }
 
 /// The limiter and PROXY settings as an operator writes them — environment variables, or a configuration file with the
-/// documented keys — read once by the application's own `Config::read()` (limit 2 per 20 s, v1 headers only).
+/// documented keys — read once by the application's own `Config::read()` (limit 2 per 20 s; the environment switches v2 headers off, the file v1 headers).
 fn operator_cfgs() -> &'static (Result<passage::config::Config, String>, Result<passage::config::Config, String>) {
     static CFGS: std::sync::OnceLock<(Result<passage::config::Config, String>, Result<passage::config::Config, String>)> = std::sync::OnceLock::new();
     CFGS.get_or_init(|| {
-        let envs = [("PASSAGE_RATELIMITER_DURATION", "20"), ("PASSAGE_RATELIMITER_LIMIT", "2"), ("PASSAGE_PROXYPROTOCOL_ALLOWV1", "true"), ("PASSAGE_PROXYPROTOCOL_ALLOWV2", "false")];
+        // each layer spells out only the version it switches off: the other one keeps its default (allowed)
+        let envs = [("PASSAGE_RATELIMITER_DURATION", "20"), ("PASSAGE_RATELIMITER_LIMIT", "2"), ("PASSAGE_PROXYPROTOCOL_ALLOWV2", "false")];
         // SAFETY: called first from `run_c15` before any worker thread exists
         for (k, v) in envs { unsafe { std::env::set_var(k, v); } }
         let from_env = passage::config::Config::read().map_err(|e| e.to_string());
         for (k, _) in envs { unsafe { std::env::remove_var(k); } }
         let base = std::env::temp_dir().join(format!("pv-c15cfg-{}", std::process::id()));
-        std::fs::write(base.with_extension("yaml"), "rate_limiter:\n  duration: 20\n  limit: 2\nproxy_protocol:\n  allow_v1: true\n  allow_v2: false\n").unwrap();
+        std::fs::write(base.with_extension("yaml"), "rate_limiter:\n  duration: 20\n  limit: 2\nproxy_protocol:\n  allow_v1: false\n").unwrap();
         unsafe { std::env::set_var("CONFIG_FILE", &base); }
         let from_file = passage::config::Config::read().map_err(|e| e.to_string());
         unsafe { std::env::remove_var("CONFIG_FILE"); }
@@ -718,7 +755,7 @@ fn c15_case(req: &str) -> Case {
         let srv = if via_app { None } else { Some(Srv::start(&SrvOpts { proxy: if proxy { Some((v1, v2ok)) } else { None }, limiter: limit, timeout: Duration::from_secs(2), secret: Some(b"s3cret".to_vec()), ..Default::default() })) };
         let port = match &srv { Some(s) => s.port, None if via == "app" => start_app(app_config_full(free_port(), 10_000, 21_600, None, 2, if proxy { Some((v1, v2ok)) } else { None }, limit)),
             None => {
-                // what the operator wrote (limit 2 per 20 s, v1 only — the request line says the same) as the application read it
+                // what the operator wrote (limit 2 per 20 s, one header version switched off — the request line says the same) as the application read it
                 match if via == "env" { &operator_cfgs().0 } else { &operator_cfgs().1 } {
                     Ok(cfg) => { let mut cfg = cfg.clone(); cfg.address = format!("127.0.0.1:{}", free_port()); cfg.timeout = 2; start_app(cfg) }
                     Err(e) => return Case { request: req.into(), observed: "unreadable".into(), oracle: Some(format!("the operator's limiter and PROXY settings ({via}) were not readable: {e}")), class: format!("{via} unreadable") },
@@ -899,7 +936,7 @@ pub fn run_c15(a: &Args) {
     // the operator's own spelling of the limiter and PROXY settings, through the environment and through a file
     let _ = operator_cfgs();
     reqs.push("c15.run proxy=1 allow=10 limit=2 via=env hdrs=1/0;2/0;1/0;1/4;2/1;1/1;1/1;1/7 login=0".into());
-    reqs.push("c15.run proxy=1 allow=10 limit=2 via=file hdrs=1/1;2/1;1/4;1/1;2/0;1/0;1/0;1/3;1/3;2/3 login=0".into());
+    reqs.push("c15.run proxy=1 allow=01 limit=2 via=file hdrs=1/4;2/4;1/0;1/4;2/5;1/5;1/5;1/6;1/6;2/6 login=0".into());
     // bursts: many simultaneous connections of one address, server on several workers
     for k in 0..(if a.thorough { 12 } else { 4 }) {
         let proxy = k % 2 == 1;
@@ -928,7 +965,11 @@ fn exhaust_fds(spare: usize) -> Vec<std::fs::File> {
 pub fn run_lstfd(mode: &str) {
     // SAFETY: plain setrlimit on this (child) process
     unsafe { let lim = libc::rlimit { rlim_cur: 160, rlim_max: 160 }; libc::setrlimit(libc::RLIMIT_NOFILE, &lim); }
-    let drain = mode == "drain";
+    // "drain": stop first, exhaustion during the drain; "drain-late": exhaustion first, the stop request arrives while accept() keeps failing
+    let late_stop = mode == "drain-late";
+    // "accept-long": the episode without descriptors lasts 4 s; whatever the listener does meanwhile, once it is over a client is served at once
+    let long_episode = mode == "accept-long";
+    let drain = mode == "drain" || late_stop;
     let line = rt().block_on(async {
         let Some(srv) = Srv::start_opt(&SrvOpts { timeout: Duration::from_millis(2500), gated: drain, secret: Some(b"s3cret".to_vec()), ..Default::default() }) else { return "RESULT up=0".to_string() };
         let mut inflight = None;
@@ -944,13 +985,13 @@ pub fn run_lstfd(mode: &str) {
             }));
             let _ = tokio::time::timeout(Duration::from_millis(2000), ready.acquire()).await;
             tokio::time::sleep(Duration::from_millis(50)).await;
-            srv.stop.cancel();
-            tokio::time::sleep(Duration::from_millis(100)).await;
+            if !late_stop { srv.stop.cancel(); tokio::time::sleep(Duration::from_millis(100)).await; }
         }
         // exactly one free descriptor: the hostile client's own socket takes it, the server's accept() finds none
         let held = exhaust_fds(1);
         let hostile = std::net::TcpStream::connect(("127.0.0.1", srv.port));
-        tokio::time::sleep(Duration::from_millis(300)).await;
+        tokio::time::sleep(Duration::from_millis(if long_episode { 4000 } else { 300 })).await;
+        if late_stop { srv.stop.cancel(); tokio::time::sleep(Duration::from_millis(250)).await; }
         let returned_while_exhausted = srv.returned_at().is_some();
         drop(held);
         drop(hostile);
@@ -964,7 +1005,7 @@ pub fn run_lstfd(mode: &str) {
             let early = returned_while_exhausted || ret.is_some_and(|r| r + Duration::from_millis(50) < done);
             format!("RESULT up=1 transfer={} early_return={} returned={}", u8::from(transfer), u8::from(early), u8::from(ret.is_some()))
         } else {
-            let served = match Cli::connect(srv.port, None).await { Ok(mut c) => c.status(Duration::from_millis(1000)).await.is_some(), Err(_) => false };
+            let served = match Cli::connect(srv.port, None).await { Ok(mut c) => c.status(Duration::from_millis(SERVE_BOUND_MS)).await.is_some(), Err(_) => false };
             srv.stop.cancel();
             format!("RESULT up=1 served={} listener_gone={}", u8::from(served), u8::from(returned_while_exhausted))
         }
@@ -1036,9 +1077,10 @@ async fn stall(port: u16, proxy: bool, stage: &str) -> Option<Cli> {
 fn c16_case(req: &str) -> Case {
     if req.contains("stalled=fd-exhaustion") {
         // in a child process with 160 descriptors: a connection arrives that the server cannot accept for want of a descriptor
-        let r = lstfd_child("accept");
+        let long = req.contains("episode=long");
+        let r = lstfd_child(if long { "accept-long" } else { "accept" });
         let served = r.contains("served=1");
-        return Case { request: "c16.run proxy=0 limiter=0 gap=0 stalled=post detail=fd-exhaustion latency_us=0".into(), observed: if served { "served" } else { "blocked" }.into(),
+        return Case { request: format!("c16.run proxy=0 limiter=0 gap=0 stalled=post detail=fd-exhaustion{} latency_us=0", if long { "-4s" } else { "" }), observed: if served { "served" } else { "blocked" }.into(),
             oracle: if served { None } else { Some(format!("after a moment without free descriptors (one connection could not be accepted) a well-behaved client is no longer served: {r}")) }, class: "fd-exhaustion".into() };
     }
     let proxy = kvn(req, "proxy") == 1;
@@ -1088,6 +1130,7 @@ pub fn run_c16(a: &Args) {
         reqs.push(format!("c16.run proxy={} limiter={} gap={} stalled={}", u8::from(proxy), u8::from(rng.chance(1, 2)), if rng.chance(1, 6) { 1300 } else { 0 }, if st.is_empty() { "-".to_string() } else { st.join(",") }));
     }
     reqs.push("c16.run proxy=0 limiter=0 gap=0 stalled=fd-exhaustion".into());
+    reqs.push("c16.run proxy=0 limiter=0 gap=0 stalled=fd-exhaustion episode=long".into());
     let cases = retry_failed(par_cases(a.seed, reqs.len(), |i, _| guarded(&reqs[i], c16_case)), &reqs, |r| guarded(r, c16_case));
     write_cases(&a.out, &cases).expect("write cases");
     println!("c16: {} cases", cases.len());
@@ -1101,7 +1144,8 @@ fn c17_case(req: &str) -> Case {
     if req.starts_with("c17.race") { return c17_race(req); }
     if req.starts_with("c17.app") { return c17_app(req); }
     if req.starts_with("c17.fd") {
-        let r = lstfd_child("drain");
+        let late_stop = req.contains("late-stop");
+        let r = lstfd_child(if late_stop { "drain-late" } else { "drain" });
         let (transfer, early, ret) = (r.contains("transfer=1"), r.contains("early_return=1"), r.contains("returned=1"));
         let mut why = vec![];
         if !r.contains("up=1") { why.push(format!("child run failed: {r}")); }
@@ -1109,7 +1153,7 @@ fn c17_case(req: &str) -> Case {
         if early { why.push("listen() returned while the in-flight session was still running".into()); }
         if !ret { why.push("listen() did not return".into()); }
         return Case { request: "c17.run inflight=1 late=1 stages=backend open_after=300 via=fd-exhaustion".into(), observed: format!("late=0 early_return={} returned={}", u8::from(early), u8::from(ret)),
-            oracle: if why.is_empty() { None } else { Some(why.join("; ")) }, class: "fd-exhaustion-during-drain".into() };
+            oracle: if why.is_empty() { None } else { Some(why.join("; ")) }, class: if late_stop { "stop-during-fd-exhaustion".into() } else { "fd-exhaustion-during-drain".into() } };
     }
     let late = kvn(req, "late") as usize;
     let st = kvs(req, "stages").unwrap();
@@ -1307,6 +1351,7 @@ pub fn run_c17(a: &Args) {
     // the application entry point: ctrl-c (SIGINT) while a session is in flight
     reqs.push("c17.app".into());
     reqs.push("c17.fd".into());
+    reqs.push("c17.fd late-stop".into());
     // a session that legitimately outlasts the DEFAULT connection timeout (10 s) under a longer configured one
     reqs.push("c17.run inflight=2 late=1 stages=backend,mid-login open_after=11500 timeout=15000".into());
     for _ in 0..a.cases {
